@@ -11,6 +11,28 @@ from dippy.cli import Classification, HandlerContext
 
 COMMANDS = ["bash", "sh", "zsh", "dash", "ksh", "fish"]
 
+# `bash script.sh -h` runs the script: only a lone --help/--version is a help query
+HANDLES_HELP = True
+
+# bash's long options (accepted with one or two dashes, before the short ones)
+LONG_WITH_ARG = frozenset({"rcfile", "init-file"})
+LONG_NO_ARG = frozenset(
+    {
+        "debug",
+        "debugger",
+        "dump-po-strings",
+        "dump-strings",
+        "login",
+        "noediting",
+        "noprofile",
+        "norc",
+        "posix",
+        "pretty-print",
+        "restricted",
+        "verbose",
+    }
+)
+
 
 def classify(ctx: HandlerContext) -> Classification:
     """Classify shell command."""
@@ -19,20 +41,43 @@ def classify(ctx: HandlerContext) -> Classification:
     if len(tokens) < 2:
         return Classification("ask", description=f"{base} interactive")
 
-    # Find -c flag (standalone or combined like -lc, -cl, -xcl, etc.)
-    c_idx = None
-    for i, tok in enumerate(tokens):
-        if tok.startswith("-") and not tok.startswith("--") and "c" in tok:
-            c_idx = i
-            break
+    if len(tokens) == 2 and tokens[1] in ("--help", "--version"):
+        return Classification("allow", description=f"{base} {tokens[1]}")
 
-    if c_idx is None:
+    # Long options first, then short option words (-c standalone or combined
+    # like -lc, -cl; -o/-O take the next word); the command string is the first
+    # operand after ALL options.  An operand without -c is a script to run.
+    i = 1
+    while i < len(tokens) and tokens[i].startswith("-") and tokens[i] not in ("-", "--"):
+        name = tokens[i].lstrip("-")
+        if name in LONG_WITH_ARG:
+            i += 2
+        elif name in LONG_NO_ARG:
+            i += 1
+        elif tokens[i].startswith("--"):
+            return Classification("ask", description=f"{base} {tokens[i]}")
+        else:
+            break
+    want_c = False
+    while i < len(tokens):
+        tok = tokens[i]
+        if tok in ("-", "--"):
+            i += 1
+            break
+        if len(tok) > 1 and tok[0] in "-+":
+            if "c" in tok[1:]:
+                want_c = True
+            i += 1 + tok.count("o") + tok.count("O")
+            continue
+        break
+
+    if not want_c:
         return Classification("ask", description=f"{base} interactive")
 
-    if c_idx + 1 >= len(tokens):
+    if i >= len(tokens):
         return Classification("ask", description=f"{base} -c (no command)")
 
-    inner_cmd = tokens[c_idx + 1]
+    inner_cmd = tokens[i]
     if not inner_cmd:
         return Classification("ask", description=f"{base} -c (no command)")
 
